@@ -10,6 +10,7 @@ import (
 	"testing"
 	"time"
 
+	"github.com/dgraph-io/ristretto"
 	"github.com/go-jose/go-jose/v3"
 	"github.com/ory/fosite"
 	"github.com/ory/fosite/storage"
@@ -198,7 +199,32 @@ func TestC15_ClientAssertions(t *testing.T) {
 		// the bound on RFC 7523 *grants* is not a bound on client assertions: a long-lived assertion's jti has to be
 		// remembered for as long as the assertion is honoured, whatever that setting says
 		maxDur := time.Duration(rapid.SampledFrom([]int{0, 0, 120, 3600}).Draw(rt, "jwtBearerMaxDuration")) * time.Second
-		w, _ := c15World(store, func(c *fosite.Config) { c.GrantTypeJWTBearerMaxDuration = maxDur })
+		// where the clients' keys come from: inline JWKS, or jwks_uri documents fetched (and cached) by the library's own
+		// fetcher over an in-process transport. The two clients' URIs differ only in the query string.
+		keySource := rapid.SampledFrom([]string{"inline", "inline", "jwks_uri"}).Draw(rt, "keySource")
+		var jwksCache *ristretto.Cache[string, *jose.JSONWebKeySet]
+		if keySource == "jwks_uri" {
+			// the fetcher's cache of this case only (closed at the end: its background goroutines must not pile up)
+			jwksCache, _ = ristretto.NewCache(&ristretto.Config[string, *jose.JSONWebKeySet]{NumCounters: 1000, MaxCost: 100, BufferItems: 64, Cost: func(*jose.JSONWebKeySet) int64 { return 1 }})
+			defer jwksCache.Close()
+		}
+		w, jc := c15World(store, func(c *fosite.Config) {
+			c.GrantTypeJWTBearerMaxDuration = maxDur
+			if keySource == "jwks_uri" {
+				c.JWKSFetcherStrategy = fosite.NewDefaultJWKSFetcherStrategy(fosite.JWKSFetcherWithHTTPClient(c.HTTPClient), fosite.JWKSFetcherWithCache(jwksCache))
+			}
+		})
+		if keySource == "jwks_uri" {
+			for id, uri := range map[string]string{"jwt-client": "https://rp.example/keys?tenant=a", "other-jwt-client": "https://rp.example/keys?tenant=b"} {
+				oc, _ := w.Mem.Clients[id].(*fosite.DefaultOpenIDConnectClient)
+				doc, _ := jsonMarshal(oc.JSONWebKeys)
+				w.Docs[uri] = string(doc)
+				oc.JSONWebKeys = nil
+				oc.JSONWebKeysURI = uri
+			}
+			_ = jc
+			h.Label("keys-from-jwks_uri")
+		}
 		// the same assertion rules hold at every endpoint that authenticates clients
 		presentAt := func(where, assertion string, sendClientID bool) (bool, h.ErrInfo) {
 			form := url.Values{"client_assertion_type": {assertionType}, "client_assertion": {assertion}}
